@@ -3,104 +3,175 @@ package props
 import (
 	"fmt"
 	"go/token"
+	"strings"
 
 	"verif/checker/internal/gen"
 	"verif/checker/internal/interp"
 	"verif/checker/internal/load"
-	"verif/checker/internal/tmpl"
 )
 
 func pkgOpaque(path, name string) *interp.Opaque {
 	return &interp.Opaque{Kind: "types.Package", ID: path, GoType: "*go/types.Package", Attrs: map[string]interp.Value{"path": interp.Lit(path), "name": interp.Lit(name)}}
 }
 
-// destinationTables extracts, by abstract interpretation with constant
-// inputs, the decision tables of the two functions that decide "is this the
-// package the mock is generated into?": Var.packageQualifier and Registry.AddImport.
+// destinationTables decides "is this the package the mock is generated into?" where it matters — the
+// qualifier a variable's type text gets (Var.TypeString, interpreted from source on variables that AddVar
+// built) and the registration of imports (AddImport) — on a registry built by registry.New whose
+// destination is the source package itself (and, for one case, unknown).
 func destinationTables(c *Ctx) {
 	run, prog := c.Run, c.Prog
-	pq := prog.LookupFunc(load.PkgRegistry, "Var.packageQualifier")
-	ai := prog.LookupFunc(load.PkgRegistry, "Registry.AddImport")
-	if pq == nil || ai == nil {
-		run.Undecided("G-DEST", "roles", "internal/registry", "Var.packageQualifier / Registry.AddImport not found")
+	pos := "internal/registry/var.go"
+	ts := prog.LookupFunc(load.PkgRegistry, "Var.TypeString")
+	if ts == nil {
+		run.Undecided("G-DEST", "roles", pos, "(*Var).TypeString not found")
 		return
 	}
-	const dest = "example.test/dest"
+	pos = prog.Pos(ts.Pos())
 	const dep = "example.test/dep"
-	mk := func() (*interp.Machine, func(name string, fields map[string]interp.Value) *interp.Struct) {
-		m := interp.New(prog)
-		tmpl.InstallTypesModels(m, prog)
-		tmpl.RemoveVarModels(m)
-		return m, func(name string, fields map[string]interp.Value) *interp.Struct {
-			pk := prog.ByPath[load.PkgRegistry]
-			tn := pk.Types.Scope().Lookup(name)
-			st := m.Zero(tn.Type()).(*interp.Struct)
-			for k, v := range fields {
-				st.Fields[k] = v
-			}
-			return st
+	// go/types.TypeString on the abstract named types of these tables: the qualifier function decides
+	typeString := func(m *interp.Machine, p token.Pos, recv interp.Value, args []interp.Value) (interp.Value, error) {
+		if len(args) != 2 {
+			return &interp.Unknown{Why: "types.TypeString arity"}, nil
 		}
+		t, _ := args[0].(*interp.Opaque)
+		if t == nil || t.GoType != "*go/types.Named" {
+			return &interp.Unknown{Why: "types.TypeString of " + interp.Show(args[0])}, nil
+		}
+		obj, err := t.Methods["Obj"](m, p, nil)
+		if err != nil {
+			return nil, err
+		}
+		o := obj.(*interp.Opaque)
+		name, _ := o.Methods["Name"](m, p, nil)
+		pkg, _ := o.Methods["Pkg"](m, p, nil)
+		q, err := m.Call(p, args[1], []interp.Value{pkg})
+		if err != nil {
+			return nil, err
+		}
+		qs, ok := q.(*interp.Sym)
+		if !ok {
+			return &interp.Unknown{Why: "qualifier of " + interp.Show(pkg)}, nil
+		}
+		if c, conc := qs.Concrete(); conc && c == "" {
+			return name, nil
+		}
+		return interp.Concat(interp.Concat(qs, interp.Lit(".")), name.(*interp.Sym)), nil
 	}
-	// ---- packageQualifier
 	type qcase struct {
-		desc, moqPkgPath, pkgPath, want string
+		desc, moqPkg, pkgPath, pkgName string
+		own                            bool // the type is of the destination package: printed without qualifier
 	}
 	for _, tc := range []qcase{
-		{"destination package", dest, dest, ""},
-		{"destination package reached through a vendor directory", dest, "example.test/app/vendor/" + dest, ""},
-		{"other package", dest, dep, "QUAL"},
-		{"other package, vendored", dest, "example.test/app/vendor/" + dep, "QUAL"},
-		{"destination unknown (no directory for -pkg)", "", dep, "QUAL"},
-		{"other package under a directory whose name merely ends in vendor", dest, "example.test/govendor/dep", "QUAL2"},
-		{"other package whose path is a suffix of the destination's path", "example.test/wrap/" + dep, dep, "QUAL"},
-		{"other package whose path has the destination's path as a suffix", dep, "example.test/govendor/dep", "QUAL2"},
+		{"destination package", "", rwSrcPath, rwSrcName, true},
+		{"destination package reached through a vendor directory", "", "example.test/app/vendor/" + rwSrcPath, rwSrcName, true},
+		{"other package", "", dep, "dep", false},
+		{"other package, vendored", "", "example.test/app/vendor/" + dep, "dep", false},
+		{"other package under a directory whose name merely ends in vendor", "", "example.test/govendor/dep", "dep", false},
+		{"other package whose path is a suffix of the destination's path", "", "test/src", "src", false},
+		{"other package whose path has the destination's path as a suffix", "", "other/" + rwSrcPath, rwSrcName, false},
+		{"the source package when the destination is unknown (no directory for -pkg)", "nosuchdir", rwSrcPath, rwSrcName, false},
 	} {
-		m, mkS := mk()
-		imp := mkS("Package", map[string]interp.Value{"pkg": pkgOpaque(dep, "dep"), "Alias": interp.Lit("QUAL")})
-		imp2 := mkS("Package", map[string]interp.Value{"pkg": pkgOpaque("example.test/govendor/dep", "dep"), "Alias": interp.Lit("QUAL2")})
-		imports := &interp.MapV{Keys: []interp.Value{interp.Lit(dep), interp.Lit("example.test/govendor/dep")}, Vals: []interp.Value{&interp.Ptr{Elem: imp}, &interp.Ptr{Elem: imp2}}}
-		v := mkS("Var", map[string]interp.Value{"moqPkgPath": interp.Lit(tc.moqPkgPath), "imports": imports, "Name": interp.Lit("x")})
-		got, err := m.CallFunc(token.NoPos, pq, v, []interp.Value{pkgOpaque(tc.pkgPath, "p")})
-		if err == nil && m.Choices.Forked() {
-			err = fmt.Errorf("the qualifier decision depends on something the constant inputs do not fix (%s)", m.Choices.Describe())
+		w, err := newNameWorldFor(prog, tc.moqPkg)
+		if err == nil {
+			w.m.Ext["go/types.TypeString"] = typeString
+			// types.WriteType(buf, typ, qf) is TypeString into a buffer
+			w.m.Ext["go/types.WriteType"] = func(m *interp.Machine, p token.Pos, recv interp.Value, args []interp.Value) (interp.Value, error) {
+				if len(args) != 3 {
+					return &interp.Unknown{Why: "types.WriteType arity"}, nil
+				}
+				v, err := typeString(m, p, nil, args[1:])
+				if err != nil {
+					return nil, err
+				}
+				if ws, ok := m.Ext["(bytes.Buffer).WriteString"]; ok {
+					if _, err := ws(m, p, args[0], []interp.Value{v}); err != nil {
+						return nil, err
+					}
+				}
+				return interp.NilV{}, nil
+			}
+		}
+		var v *interp.Struct
+		if err == nil {
+			v, err = w.add(interp.Lit("x"), kNamedIn(tc.pkgPath, tc.pkgName, "T", nil, nil), "")
+		}
+		var got interp.Value
+		if err == nil {
+			got, err = w.m.CallFunc(token.NoPos, ts, &interp.Ptr{Elem: v}, nil)
+		}
+		if err == nil && w.m.Choices.Forked() {
+			err = fmt.Errorf("the qualifier decision depends on something the constant inputs do not fix (%s)", w.m.Choices.Describe())
+		}
+		if err != nil {
+			p := pos
+			if u, ok := err.(*interp.ErrUndecided); ok && u.Pos.IsValid() {
+				p = prog.Pos(u.Pos)
+			}
+			run.Undecided("G-DEST/qualifier", tc.desc, p, "the type text of a variable cannot be evaluated: "+err.Error())
+			continue
 		}
 		gs := interp.Show(got)
 		if s, ok := got.(*interp.Sym); ok {
 			gs = s.Flat()
 		}
-		if err != nil {
-			run.Undecided("G-DEST/qualifier", tc.desc, prog.Pos(pq.Pos()), "packageQualifier cannot be evaluated: "+err.Error())
-			continue
+		want := "T"
+		if !tc.own {
+			// the qualifier of the import registered under the canonical path
+			canon := tc.pkgPath
+			if i := strings.LastIndex(canon, "/vendor/"); i >= 0 {
+				canon = canon[i+len("/vendor/"):]
+			}
+			want = "<no import registered for " + canon + ">"
+			if mv, _ := w.mapField(false); mv != nil {
+				for i, k := range mv.Keys {
+					if ks, ok := k.(*interp.Sym); ok && ks.Flat() == canon {
+						if q, err := w.qualifier(mv.Vals[i]); err == nil {
+							want = q + ".T"
+						}
+					}
+				}
+			}
 		}
-		run.Check("G-DEST/qualifier", tc.desc, prog.Pos(pq.Pos()), gs == tc.want, fmt.Sprintf("for a type of the %s (destination %q, type's package %q) the qualifier is %q, want %q (\"\" = unqualified, QUAL = the registered import's qualifier)", tc.desc, tc.moqPkgPath, tc.pkgPath, gs, tc.want))
+		run.Check("G-DEST/qualifier", tc.desc, pos, gs == want, fmt.Sprintf("a variable of a type of the %s (type's package %q) is printed as %q, want %q (unqualified exactly for the destination package, otherwise through the import registered under the canonical path)", tc.desc, tc.pkgPath, gs, want))
 	}
 	// ---- AddImport
+	ai := prog.LookupFunc(load.PkgRegistry, "Registry.AddImport")
+	if ai == nil {
+		run.Undecided("G-DEST", "roles", pos, "(*Registry).AddImport not found")
+		return
+	}
+	apos := prog.Pos(ai.Pos())
 	type acase struct {
-		desc, moqPkgPath, pkgPath string
-		wantNil                    bool
-		wantKey                    string
+		desc, pkgPath string
+		wantNil       bool
+		wantKey       string
 	}
 	for _, tc := range []acase{
-		{"the destination package itself", dest, dest, true, ""},
-		{"the destination package through a vendor directory", dest, "example.test/app/vendor/" + dest, true, ""},
-		{"another package", dest, dep, false, dep},
-		{"another package, vendored", dest, "example.test/app/vendor/" + dep, false, dep},
-		{"another package under a directory whose name merely ends in vendor", dest, "example.test/govendor/dep", false, "example.test/govendor/dep"},
-		{"another package whose path is a suffix of the destination's path", "example.test/wrap/" + dep, dep, false, dep},
-		{"another package whose path has the destination's path as a suffix", dep, "example.test/govendor/dep", false, "example.test/govendor/dep"},
+		{"the destination package itself", rwSrcPath, true, ""},
+		{"the destination package through a vendor directory", "example.test/app/vendor/" + rwSrcPath, true, ""},
+		{"another package", dep, false, dep},
+		{"another package, vendored", "example.test/app/vendor/" + dep, false, dep},
+		{"another package under a directory whose name merely ends in vendor", "example.test/govendor/dep", false, "example.test/govendor/dep"},
+		{"another package whose path is a suffix of the destination's path", "test/src", false, "test/src"},
+		{"another package whose path has the destination's path as a suffix", "other/" + rwSrcPath, false, "other/" + rwSrcPath},
 	} {
-		m, mkS := mk()
-		reg := mkS("Registry", map[string]interp.Value{"moqPkgPath": interp.Lit(tc.moqPkgPath), "aliases": &interp.MapV{Keys: []interp.Value{interp.Lit(dep), interp.Lit("example.test/govendor/dep")}, Vals: []interp.Value{interp.Lit("srcalias"), interp.Lit("srcalias")}}, "imports": &interp.MapV{}})
-		p := pkgOpaque(tc.pkgPath, "p")
-		got, err := m.CallFunc(token.NoPos, ai, &interp.Ptr{Elem: reg}, []interp.Value{p})
-		if err == nil && m.Choices.Forked() {
-			err = fmt.Errorf("the registration decision depends on something the constant inputs do not fix (%s)", m.Choices.Describe())
+		w, err := newRegWorld(prog, []importSpec{{"srcalias", false, dep}, {"srcalias2", false, "example.test/govendor/dep"}}, "")
+		var got interp.Value
+		if err == nil {
+			got, err = w.addImport(tc.pkgPath, "p")
 		}
 		if err != nil {
-			run.Undecided("G-DEST/addimport", tc.desc, prog.Pos(ai.Pos()), "AddImport cannot be evaluated: "+err.Error())
+			p := apos
+			if u, ok := err.(*interp.ErrUndecided); ok && u.Pos.IsValid() {
+				p = prog.Pos(u.Pos)
+			}
+			run.Undecided("G-DEST/addimport", tc.desc, p, "AddImport cannot be evaluated: "+err.Error())
 			continue
 		}
-		imports := reg.Fields["imports"].(*interp.MapV)
+		imports, _ := w.mapField(false)
+		if imports == nil {
+			imports = &interp.MapV{}
+		}
 		_, isNil := got.(interp.NilV)
 		ok := isNil == tc.wantNil
 		if tc.wantNil {
@@ -108,18 +179,13 @@ func destinationTables(c *Ctx) {
 		} else {
 			ok = ok && len(imports.Keys) == 1 && interp.TermOf(imports.Keys[0]) == fmt.Sprintf("%q", tc.wantKey)
 			if ok {
-				// a second registration of the same canonical path returns the same import
-				got2, err2 := m.CallFunc(token.NoPos, ai, &interp.Ptr{Elem: reg}, []interp.Value{pkgOpaque(tc.wantKey, "p")})
+				got2, err2 := w.addImport(tc.wantKey, "p")
 				p1, _ := got.(*interp.Ptr)
 				p2, _ := got2.(*interp.Ptr)
 				ok = err2 == nil && p1 != nil && p2 != nil && p1.Elem == p2.Elem && len(imports.Keys) == 1
-				if ok {
-					a, _ := p1.Elem.Fields["Alias"].(*interp.Sym)
-					ok = a != nil && a.Flat() == "srcalias"
-				}
 			}
 		}
-		run.Check("G-DEST/addimport", tc.desc, prog.Pos(ai.Pos()), ok, fmt.Sprintf("registering %s (destination %q, path %q): returned %s, import map keys %v — want %s", tc.desc, tc.moqPkgPath, tc.pkgPath, interp.Show(got), showKeys(imports), map[bool]string{true: "nil and nothing registered (a file never imports its own package)", false: "one import under the canonical path with the source file's alias, the same one on re-registration"}[tc.wantNil]))
+		run.Check("G-DEST/addimport", tc.desc, apos, ok, fmt.Sprintf("registering %s (destination %q, path %q): returned %s, import map keys %v — want %s", tc.desc, rwSrcPath, tc.pkgPath, interp.Show(got), showKeys(imports), map[bool]string{true: "nil and nothing registered (a file never imports its own package)", false: "one import under the canonical path, the same one on re-registration"}[tc.wantNil]))
 	}
 	run.Floor("G-DEST/qualifier", 5)
 	run.Floor("G-DEST/addimport", 4)
